@@ -10,10 +10,54 @@ from .interp_expr import num_add, _asint
 LOOP_PASSES = 3
 
 
+def _full_overwrite(self, stmts, i, st):
+    """`X[0:a] = v ; X[a:n] = w` with n == len(X): the two slice stores overwrite the whole buffer, so its old
+    contents (and their type) are dead.  Returns the name X or None."""
+    if i + 1 >= len(stmts):
+        return None
+    a, b = stmts[i], stmts[i + 1]
+    for x in (a, b):
+        if not (isinstance(x, ast.Assign) and len(x.targets) == 1 and isinstance(x.targets[0], ast.Subscript)
+                and isinstance(x.targets[0].value, ast.Name) and isinstance(x.targets[0].slice, ast.Slice)
+                and x.targets[0].slice.step is None):
+            return None
+    ta, tb = a.targets[0], b.targets[0]
+    if ta.value.id != tb.value.id:
+        return None
+    name = ta.value.id
+    arr = st.env.get(name)
+    if not isinstance(arr, Num) or arr.shape is None or len(arr.shape) != 1 or arr.shape[0] is None:
+        return None
+    sa, sb = ta.slice, tb.slice
+    lo_ok = sa.lower is None or (isinstance(sa.lower, ast.Constant) and sa.lower.value == 0)
+    if not lo_ok or sa.upper is None or sb.lower is None:
+        return None
+    if ast.dump(sa.upper) != ast.dump(sb.lower):
+        return None
+    if sb.upper is not None:
+        try:
+            hi = self.eval(sb.upper, st)
+        except PathEnd:
+            return None
+        ih = _asint(hi)
+        if ih is None or ih.a is None or ih.a != arr.shape[0]:
+            return None
+    # the right-hand sides must not read the buffer
+    for x in (a, b):
+        if any(isinstance(n, ast.Name) and n.id == name for n in ast.walk(x.value)):
+            return None
+    return name
+
+
 def exec_block(self, stmts, st, frame):
-    for s in stmts:
+    for i, s in enumerate(stmts):
         if st is None:
             return None
+        if isinstance(s, ast.Assign):
+            name = _full_overwrite(self, stmts, i, st)
+            if name is not None:
+                arr = st.env[name]
+                st.env[name] = Num(zero=True, shape=arr.shape, cplx=arr.cplx, taint=frozenset())
         st = self.exec_stmt(s, st, frame)
     return st
 
@@ -219,6 +263,9 @@ def store_subscript(self, t, v, st, node):
                 new.rv = True if nv.rv and False else None
             new.nonneg = (b0.nonneg or b0.zero) and nv.nonneg
             new.role = base.role
+            new.mirror = nv.mirror if (b0.zero or b0.mirror == nv.mirror) else False
+            if nv.zero:
+                new.mirror = b0.mirror
             if base.seg is not None and len(base.shape or ()) == 1:
                 from . import segmap
                 ia = _asint(idx)
